@@ -31,7 +31,6 @@ from pathlib import Path
 
 import numpy as np
 
-from pvm.monitor import to_jsonable
 from pvm.ref import c01_dual as R
 
 PROP = "C02"
@@ -185,8 +184,8 @@ def _make(rng, depth, recipe=None, force=None, prebuilt=None):
             if _acceptable(setup, tree):
                 case = {k: sk[k] for k in ("mdg", "vars", "tdense", "depth", "seed",
                                            "state_mode")}
-                case["tree"] = tree
-                return case
+                case["tree"] = R.pack_tree(tree)
+                return R.plain(case)
     raise RuntimeError("C02 generator could not produce an admissible case")
 
 
@@ -336,7 +335,7 @@ def floor(tier):
             except RuntimeError:
                 continue
     out += _hand_cases(recipes)
-    _FLOOR = json.loads(json.dumps(to_jsonable(out)))
+    _FLOOR = json.loads(json.dumps(R.plain(out)))
     try:        # the runner generates the floor before it starts the workers
         tmp = cache.with_suffix(f".{os.getpid()}.tmp")
         tmp.write_text(json.dumps(_FLOOR))
@@ -385,7 +384,7 @@ def _hand_cases(recipes):
     out = []
     for t in trees:
         c = {k: (v if k != "vars" else [dict(x) for x in v]) for k, v in base.items()}
-        c["tree"] = t
+        c["tree"] = R.pack_tree(t)
         out.append(c)
     return out
 
@@ -658,7 +657,7 @@ def check(case, mon):
     from pvm.gen import c02_setup as S
 
     sk = {k: case[k] for k in ("mdg", "vars", "tdense", "depth", "seed", "state_mode")}
-    tree = case["tree"]
+    tree = R.tree_of(case)
     setup = S.Setup(sk)
     mon.klass(f"{sk['mdg']['dim']}d-{sk['mdg']['mesh']}-{len(sk['mdg']['fractures'])}frac")
     mon.klass("state:" + sk["state_mode"])
